@@ -251,7 +251,9 @@ func (s *session) takeImages(kind string, permille int, file string) {
 				if f := &files[refs[i].file]; !allZero(f.old[refs[i].sec*sector : min((refs[i].sec+1)*sector, len(f.old))]) {
 					img.stale = true
 				}
-				h = core.Mix(h, uint64(refs[i].file), uint64(refs[i].sec))
+				// (the file's name, not its position in the scan: an idle pipeline file may or
+				// may not have been created yet, which shifts positions but changes nothing else)
+				h = core.Mix(h, core.HashString(files[refs[i].file].sub+"/"+files[refs[i].file].name), uint64(refs[i].sec))
 				if lostBy[refs[i].file] == nil {
 					lostBy[refs[i].file] = map[int]bool{}
 				}
